@@ -58,7 +58,7 @@ type fsCfgDesc struct {
 
 func mkPayload(id, n int) []byte {
 	// self-describing where the length allows it; always newline terminated
-	s := fmt.Sprintf("#%05d:%03d:", id, n)
+	s := fmt.Sprintf("#%05d:%03d:%%d 100%% %%s%%!", id, n) // event bytes are data, not a format string
 	b := make([]byte, 0, n)
 	for len(b) < n-1 {
 		if len(b) < len(s) {
@@ -101,8 +101,11 @@ func runFileSink(rc *RunCtx, prop string, crash bool, faults bool) {
 	sink.FileName = []string{"ev.log", "ev", "audit.txt"}[tp.Choose(3, "fname")]
 	sink.MaxBytes = []int{0, 0, 1, 40, 120, 300}[tp.Choose(6, "maxbytes")]
 	sink.MaxFiles = tp.Choose(4, "maxfiles")
-	if tp.Choose(3, "maxdur") == 0 {
+	switch tp.Choose(6, "maxdur") {
+	case 0, 1:
 		sink.MaxDuration = 30 * time.Millisecond
+	case 2:
+		sink.MaxDuration = -time.Second // not a limit: only MaxDuration > 0 rotates by age
 	}
 	sink.TimestampOnlyOnRotate = tp.Choose(2, "tsonrot") == 0
 	// (0666 / 0664 / 0660 carry bits that the process umask would clear from a mode given to open(2))
